@@ -108,6 +108,26 @@ def check(ctx):
             else:
                 ys = ctx.attr(st, o, "y_selected_")
                 ctx.ob("R-BUFFERS", f"{pkg}: no y_selected_ buffer without targets", ys is None or ys.kind == "undef", f"y_selected_ = {ys!r}", site, cfg)
+            # cold initialisation of a previously fitted object: every piece of search state restarts
+            for cq2, pkg2, axis2, S2 in CLASSES:
+                if axis2 != axis:
+                    continue
+                cls2 = P.cls(cq2)
+                I, st = ctx.interp(assume=protocols.assume_default, stubs={f"{c.name}._update_post_selection": (lambda i_, c_, a_, k_, s_, n_: vconst(None)) for c in cls2.mro() if hasattr(c, "methods") and "_update_post_selection" in getattr(c, "methods", {})}), State()
+                from .C08 import _fitted_state
+
+                stale = {k: v for k, v in _fitted_state(cls2.name, axis, S2).items() if isinstance(v, V)}
+                stale = {k: (arr("stale_" + k, *[repr(d) for d in v.shape], inp=False, dtype=v.extra if isinstance(v.extra, str) else None) if v.shape not in (None, ()) else v) for k, v in stale.items()}
+                stale.update({"first_score_": scalar("stale_first"), "n_selected_": integer("stale_n"), "_axis": axis, "mixing": scalar("alpha", 0, 1, False, True), "k": 1, "random_state": 0, "initialize": 0, "tolerance": 1e-12, "recompute_every": 1, "n_trial_calculation": 4, "full_fraction": scalar("ff", 0, 1, True, False), "score_threshold": scalar("thr"), "score_threshold_type": "relative"})
+                if with_y and axis == 0:
+                    stale["y_selected_"] = arr("stale_ysel", "S0", "P", inp=False)
+                else:
+                    stale.pop("y_selected_", None)
+                o = ctx.bare_object(I, st, cls2, stale)
+                ctx.call_method(I, st, o, "_init_greedy_search", X, y if (with_y or "PCov" in cls2.name) else vconst(None), n)
+                heap = st.heap[o.obj.id]
+                leftovers = sorted(k for k, v in heap.items() if v.kind not in ("undef",) and k.endswith("_") and k not in ("support_", "new_dist_") and any(x.op == "sym" and str(x.args[0]).startswith("stale_") for x in tq.walk_all(v.term)))
+                ctx.ob("R-BUFFERS", f"{pkg}.{cls2.name}: cold initialisation leaves no search state of the previous fit (y={with_y})", not leftovers, f"attributes still holding values of the previous fit: {leftovers}", ctx.site(P.method(cls2, "_init_greedy_search")), f"{pkg}.{cls2.name} y={with_y}")
             # warm start re-extension
             I, st = ctx.interp(), State()
             attrs, Q = _pre_state("", axis, S, with_y)
